@@ -210,8 +210,10 @@ def analyse(tier, seed):
                 "argtype": cs["ty"] in touches[cs["sid"]],
                 # the one situation the argument-type shortcut is designed for (see lib/schemas.py, method md): the Args struct
                 # of a method with a single struct argument, decoded at the end of the buffer, as written by a conforming writer
+                # (... and whose request struct holds no OTHER argument type by value: Leaf1 is one in the schemas where a method
+                # takes it directly, and then its own decoder swallows its stop byte -- the known defect, nested)
                 "designed": bool(cs["isarg"] and cs["kind"] == "base" and len(d["fields"]) == 1 and d["name"].endswith(("ArgsSend", "ArgsRecv"))
-                                 and "Md" in d["name"]),
+                                 and "Md" in d["name"] and "Leaf1" not in argtypes[cs["sid"]]),
                 "synth": bool(d.get("synth")), "q": d.get("q", "-")}
 
     def tags_for(c0, check):
